@@ -188,6 +188,118 @@ def _install():
     for cls in (Single, Compound):
         wrap(cls, "extract_sequence", h_ext)
 
+    # ---------------- C05: translation / coding sequence of whole-chromosome CDS objects (coordinates re-based to the
+    # CDS start: every judged quantity is translation invariant)
+    from inscripta.biocantor.gene.cds import CDSInterval
+    from inscripta.biocantor.gene.transcript import TranscriptInterval
+
+    def rebased(loc, off):
+        return [[[b.start - off, b.end - off] for b in loc.blocks], loc.strand.to_symbol()]
+
+    def cds_desc(c):
+        if c.is_chunk_relative or not c.has_sequence:
+            return None
+        loc = c.chromosome_location
+        if isinstance(loc, Empty) or loc.end - loc.start > 900 or loc.num_blocks > 12:
+            return None
+        par = loc.parent
+        if par is None or par.sequence is None or par.parent is not None:
+            return None
+        if not par.sequence.alphabet.name.startswith("NT_"):
+            return None
+        off = loc.start
+        root = str(par.sequence)[loc.start:loc.end]
+        if len(root) != loc.end - loc.start:
+            return None
+        return rebased(loc, off), [f.value for f in c.frames], list(root)
+
+    def h_translate(self, a, k, res, exc):
+        d = cds_desc(self)
+        if d is None:
+            return
+        names = ("truncate_at_in_frame_stop", "translation_table", "strict")
+        dflt = (False, 0, True)
+        args = [a[i] if i < len(a) else k.get(names[i], dflt[i]) for i in range(3)]
+        table = int(args[1])
+        if table not in (0, 1, 11):
+            return
+        _emit("C05Trace", ["tr1", d[0], d[1], d[2], bool(args[0]), table, bool(args[2]),
+                           oc(res, exc, lambda r: [list(str(r))])])
+
+    wrap(CDSInterval, "translate", h_translate)
+
+    # ---------------- C06: position conversions of whole transcripts (coordinates re-based to the transcript start)
+    def tx_desc(t):
+        loc = t.chromosome_location
+        if isinstance(loc, Empty) or loc.end - loc.start > 1500 or loc.num_blocks > 12 or loc.is_overlapping:
+            return None
+        off = loc.start
+        if t.is_coding:
+            cl = t.cds.chromosome_location
+            if cl.is_overlapping:
+                return None
+            return off, rebased(loc, off), rebased(cl, off)
+        return off, rebased(loc, off), [[], "e"]
+
+    def posconv(kind, chrom_arg):
+        def h(self, a, k, res, exc):
+            d = tx_desc(self)
+            if d is None:
+                return
+            pos = a[0] if a else k.get("pos")
+            if not isinstance(pos, int) or isinstance(pos, bool):
+                return
+            off = d[0]
+            p = pos - off if chrom_arg else pos
+            if not (-5 <= p <= 3000):
+                return
+            enc = (lambda r: [r]) if chrom_arg else (lambda r: [r - off])
+            _emit("C06Trace", ["m1", d[1], d[2], kind, p, oc(res, exc, enc)])
+        return h
+
+    wrap(TranscriptInterval, "sequence_pos_to_transcript", posconv("s2t", True))
+    wrap(TranscriptInterval, "transcript_pos_to_sequence", posconv("t2s", False))
+    wrap(TranscriptInterval, "sequence_pos_to_cds", posconv("s2c", True))
+    wrap(TranscriptInterval, "cds_pos_to_sequence", posconv("c2s", False))
+
+    # ---------------- C16: every call of the binning function
+    import sys
+
+    import inscripta.biocantor.util.bins as bins_mod
+
+    orig_bins = bins_mod.bins
+
+    @functools.wraps(orig_bins)
+    def traced_bins(start, stop, fmt="gff", one=True):
+        end = stop
+        res, exc = None, None
+        try:
+            res = orig_bins(start, stop, fmt=fmt, one=one)
+            return res
+        except BaseException as ex:  # noqa: B902
+            exc = ex
+            raise
+        finally:
+            try:
+                if _OUT and isinstance(start, int) and isinstance(end, int) and fmt in ("bed", "gff") \
+                        and 0 <= start and end < 2 ** 30:
+                    off = 0 if fmt == "bed" else 1
+                    if exc is not None:
+                        pass
+                    elif one:
+                        _emit("C16Trace", ["bin", start, end, off, res])
+                    elif not isinstance(res, set):
+                        _emit("C16Trace", ["set", start, end, off, sorted(res)])
+            except Exception:
+                pass
+
+    for m in list(sys.modules.values()):
+        try:
+            if getattr(m, "bins", None) is orig_bins:
+                setattr(m, "bins", traced_bins)
+        except Exception:
+            pass
+
 
 try:
     _install()
